@@ -113,7 +113,11 @@ func Map(page mm.Page, frame mm.Frame, flags PageTableEntryFlag) *kernel.Error {
 // available region in the active virtual address space, establishes the
 // mapping and returns back the Page that corresponds to the region start.
 func MapRegion(frame mm.Frame, size uintptr, flags PageTableEntryFlag) (mm.Page, *kernel.Error) {
-	// Reserve next free block in the address space
+	// Reserve next free block in the address space; a size that cannot be
+	// rounded up to a page multiple without wrapping around can never fit.
+	if size > ^(mm.PageSize - 1) {
+		return 0, errEarlyReserveNoSpace
+	}
 	size = (size + (mm.PageSize - 1)) & ^(mm.PageSize - 1)
 	startPage, err := earlyReserveRegionFn(size)
 	if err != nil {
